@@ -417,6 +417,7 @@ def run(chk, tier):
     _SB.positive_control(chk)
     from ..rules import iters as _ITE
     _ITE.erase_count_area(chk, db, ['_string/basic_inplace_string'])      # ERASECNT: erase / erase_if return the number of erased elements
+    _ITE.rotate_insert_area(chk, db, ['_string/basic_inplace_string'])      # ROTINS: append-then-rotate inserts rotate from the requested position
     plain = D.load("plain")
     with open(c05.SPEC) as fh:
         table = json.load(fh)["entries"]
@@ -432,6 +433,10 @@ def run(chk, tier):
         chk.analysis_broken("SLOTS-W: only %d growing size stores found in basic_inplace_string (floor 4)" % chk.rule_instances.get("SLOTS-W", 0))
     same_name_delegation(chk, db)
     clamp_rule(chk, db)
+    from . import c02 as _c02
+    _c02.string_read_sites(chk, plain)      # BOUND: read-only members form pointers within [0, size()]
+    from ..rules import exits as _EXW
+    _EXW.check_rwindow(chk, db)      # RWINDOW: the string's rfind overloads end in basic_string_view::rfind
     c08.exit_rule(chk, plain)      # inplace_string's searches are etl::strings::find / string_view members
     # NULFREE: counted operations never reach a routine that stops at a null character (embedded nulls are characters)
     c08.nulfree_rule(chk, db, STRING, 100)
